@@ -1,5 +1,6 @@
 import GGV.Run.ISet
 import GGV.Run.Excerpt
+import GGV.Run.Config
 /-! `ggmodel`: one request per line `<id> <suite> <op> <args…>`, one reply per line `<id> <result>`. -/
 open GGV.Run
 
@@ -7,6 +8,7 @@ def dispatch (suite op : String) (args : List String) : String :=
   match suite with
   | "iset" => isetSuite op args
   | "excerpt" => excerptSuite op args
+  | "cfg" => cfgSuite op args
   | _ => "bad-suite"
 
 partial def loop (hin : IO.FS.Stream) (hout : IO.FS.Stream) : IO Unit := do
